@@ -21,7 +21,7 @@ import (
 var Atoms = []string{
 	"repository:a:pull",
 	"repository:a:push",
-	"repository:b:pull",
+	"repository:catalog:pull",
 	"registry:catalog:*",
 }
 
